@@ -165,7 +165,7 @@ def build_robust(mods, jobs):
 
 
 def run_tlc(cfg, env, timeout, workers, seed):
-    r = core.tlc_or_die("PyCore", cfg=cfg, timeout=timeout, workers=workers, env=env, coverage=True, seed=seed)
+    r = core.tlc_or_die("PyCore", cfg=cfg, timeout=timeout, workers=workers, env=env)
     return r
 
 
@@ -182,20 +182,18 @@ def run(tier, seed):
     cov = {"tlc": []}
     recs = []
     seen = set()
-    acts = collections.Counter()
+    acts = {}
     n_oom = 0
     with concurrent.futures.ThreadPoolExecutor(2) as ex:
         futs = []
         cfg, mod = T["exh"]
         futs.append(("exhaustive", cfg, ex.submit(run_tlc, cfg, {"C01_REM": seed % mod}, T["timeout"], workers, seed)))
         cfg, _ = T["rnd"]
-        futs.append(("random", cfg, ex.submit(run_tlc, cfg, {}, T["timeout"], workers, seed)))
+        futs.append(("random", cfg, ex.submit(run_tlc, cfg, {"C01_SEED": seed}, T["timeout"], workers, seed)))
         for family, cfg, fu in futs:
             r = fu.result()
-            cov["tlc"].append(dict(r.summary(), config=cfg, family=family, published=len(r.printed),
-                                   coverage={k: list(v) for k, v in r.coverage.items()}))
-            for a, (d, t) in r.coverage.items():
-                acts[a] += t
+            cov["tlc"].append(dict(r.summary(), config=cfg, family=family, published=len(r.printed)))
+            acts[family] = (r.generated, r.distinct, r.depth)
             if not r.printed:
                 core.die("PyCore (%s) published no program" % cfg)
             for p in r.printed:
@@ -212,9 +210,12 @@ def run(tier, seed):
                 p["family"] = family
                 recs.append(p)
             del r.out
-    for a in ("Fill", "Seal", "Call"):
-        if acts[a] == 0:
-            core.die("vacuous model run: action %s never taken" % a)
+    # vacuity (model side): every published program is the end of a behaviour Init -> Fill.. -> Seal -> Call^n,
+    # so the search must be at least that deep and must have at least that many states
+    for fam, (gen, dist, depth) in acts.items():
+        n_f = sum(1 for r in recs if r["family"] == fam)
+        if depth < ncalls + 3 or dist < n_f * (ncalls + 2):
+            core.die("vacuous model run (%s): depth %d, %d distinct states for %d programs" % (fam, depth, dist, n_f))
     for pid, r in enumerate(recs):
         r["pid"] = pid
         r["source"] = lp.render(r["prog"], pid)
